@@ -1663,3 +1663,7 @@ mod test {
         assert_eq!(Some(&server_filter), client.bloom_filter.full_filter());
     }
 }
+
+#[cfg(all(test, pendulum_project_ntpd_rs_verif))]
+#[path = "/verif/harness/ntp-proto/hook_source.rs"]
+mod verif_hook;
